@@ -314,11 +314,15 @@ func c11EntryPoints() *sup.Space {
 		{"6 facts in the second later block, WithMaxFacts(5)", refdl.Block{}, []refdl.Block{{Facts: []refdl.Atom{atom("g", rx.Int(0))}}, six}, []datalog.WorldOption{datalog.WithMaxFacts(5)}, datalog.ErrWorldRunLimitMaxFacts},
 		{"generous limits", chain, []refdl.Block{six}, []datalog.WorldOption{datalog.WithMaxFacts(100), datalog.WithMaxIterations(100)}, nil},
 	}
-	return &sup.Space{Name: "entry-points-honour-limits", Size: func(*sup.Ctx) int64 { return int64(len(eps) * len(scens)) }, Run: func(i int64, w *sup.W) {
+	// what happens to the authorizer between its creation and the evaluation that is observed
+	preps := []string{"AddPolicy", "Reset; AddPolicy", "LoadPolicies(snapshot holding the policy)", "AddPolicy; Authorize; Reset; AddPolicy", "LoadPolicies; Reset; LoadPolicies"}
+	return &sup.Space{Name: "entry-points-honour-limits", Size: func(*sup.Ctx) int64 { return int64(len(eps) * len(scens) * len(preps)) }, Run: func(i int64, w *sup.W) {
+		prep := int(i) % len(preps)
+		i /= int64(len(preps))
 		e := eps[int(i)%len(eps)]
 		sc := scens[int(i)/len(eps)]
 		tok, err := hx.Token(1, 5, sc.authority, sc.blocks)
-		human := fmt.Sprintf("%s(…, WithWorldOptions(…)): %s", e.name, sc.name)
+		human := fmt.Sprintf("%s(…, WithWorldOptions(…)); %s; Authorize: %s", e.name, preps[prep], sc.name)
 		if err != nil {
 			w.Violate("C11:token-build-failed", human, err.Error(), "a token")
 			return
@@ -331,7 +335,37 @@ func c11EntryPoints() *sup.Space {
 				aerr = err
 				return
 			}
-			a.AddPolicy(hx.Policy(allow(qTrue)))
+			snapshot := func() []byte {
+				scratch, _ := biscuit.NewVerifier(tok, hx.LongLimits)
+				scratch.AddPolicy(hx.Policy(allow(qTrue)))
+				b, _ := scratch.SerializePolicies()
+				return b
+			}
+			switch prep {
+			case 0:
+				a.AddPolicy(hx.Policy(allow(qTrue)))
+			case 1:
+				a.Reset()
+				a.AddPolicy(hx.Policy(allow(qTrue)))
+			case 2:
+				if aerr = a.LoadPolicies(snapshot()); aerr != nil {
+					return
+				}
+			case 3:
+				a.AddPolicy(hx.Policy(allow(qTrue)))
+				a.Authorize()
+				a.Reset()
+				a.AddPolicy(hx.Policy(allow(qTrue)))
+			case 4:
+				snap := snapshot()
+				if aerr = a.LoadPolicies(snap); aerr != nil {
+					return
+				}
+				a.Reset()
+				if aerr = a.LoadPolicies(snap); aerr != nil {
+					return
+				}
+			}
 			aerr = a.Authorize()
 		})
 		if c11ExecProblems(w, x, human, "entry") {
